@@ -861,7 +861,78 @@ def _mdl_harmonic_missing_var_ok():
     Model._fix_points_order = fix
 
 
+def _don_contract_wrong_axis():
+    import torch
+    from torchphysics.models.deeponet.deeponet import DeepONet
+    from torchphysics.problem.spaces import Points
+
+    def forward(self, trunk_inputs, branch_inputs=None, device="cpu"):
+        if branch_inputs is not None:
+            self.fix_branch_input(branch_inputs, device=device)
+        t = self.trunk(trunk_inputs)
+        if len(t.shape) < 4:
+            t = t.unsqueeze(0)
+        b = self.branch.current_out.unsqueeze(1)
+        out = torch.sum(t * b.flip(-1), dim=-1)                    # neurons paired in reverse order
+        return Points(out, self.output_space)
+    DeepONet.forward = forward
+
+
+def _don_grad_weight():
+    import torch
+    from torchphysics.models.deeponet import layers
+
+    class lin(torch.autograd.Function):
+        @staticmethod
+        def forward(ctx, input, weight, bias=None):
+            if len(input.shape) < 3:
+                input = input.unsqueeze(0)
+            n = input.shape[0]
+            input = input[0]
+            ctx.save_for_backward(input, weight, bias)
+            out = input.matmul(weight.transpose(-1, -2))
+            if bias is not None:
+                out += bias.unsqueeze(0).expand_as(out)
+            return out.expand(*([n] + len(out.shape) * [-1]))
+
+        @staticmethod
+        def backward(ctx, g):
+            input, weight, bias = ctx.saved_tensors
+            gi = g.matmul(weight)
+            gw = g[0].transpose(-1, -2).matmul(input) if g.dim() == 3 else g.transpose(-1, -2).matmul(input)     # only the first copy
+            gb = g.reshape(-1, bias.shape[-1]).sum(0) if bias is not None else None
+            return gi, gw, gb
+    layers.linear = lin
+    layers.TrunkLinear.forward = lambda self, input: lin.apply(input, self.weight, self.bias)
+
+
+def _don_branch_cache_by_shape():
+    import torch
+    from torchphysics.models.deeponet.branchnets import FCBranchNet
+
+    def forward(self, batch):
+        x = batch.as_tensor.reshape(-1, self.input_dim)
+        if getattr(self, "_last_shape", None) == tuple(x.shape) and self.current_out.numel():
+            return                                                  # "same input", keep the cached features
+        self._last_shape = tuple(x.shape)
+        self.current_out = self._reshape_multidimensional_output(self.sequential(x))
+    FCBranchNet.forward = forward
+
+
+def _don_trunk_reshape():
+    from torchphysics.models.deeponet.trunknets import TrunkNet
+
+    def r(self, output):
+        n = int(self.output_neurons / self.output_space.dim)
+        if len(output.shape) == 3:
+            return output.reshape(output.shape[0], output.shape[1], n, self.output_space.dim).transpose(-1, -2)
+        return output.reshape(-1, n, self.output_space.dim).transpose(-1, -2)
+    TrunkNet._reshape_multidimensional_output = r
+
+
 REGISTRY = {
+    "don_contract_reversed": _don_contract_wrong_axis, "don_grad_weight_first_copy": _don_grad_weight,
+    "don_branch_cache_by_shape": _don_branch_cache_by_shape, "don_trunk_reshape": _don_trunk_reshape,
     "mdl_fcn_noreorder": _mdl_fcn_noreorder, "mdl_parallel_positional": _mdl_parallel_positional,
     "mdl_qres_batch_norm": _mdl_qres_batch_norm, "mdl_sequential_flip": _mdl_sequential_skips_reorder,
     "mdl_missing_var_zero": _mdl_harmonic_missing_var_ok,
@@ -894,6 +965,7 @@ REGISTRY = {
     "dl_target_perm": _dl_target_perm, "dl_len_floor": _dl_len_floor, "dl_agg_global_mean": _dl_agg_sum,
 }
 BY_PROPERTY = {
+    "C09": ["don_contract_reversed", "don_grad_weight_first_copy", "don_branch_cache_by_shape"],
     "C08": ["mdl_fcn_noreorder", "mdl_parallel_positional", "mdl_qres_batch_norm", "mdl_sequential_flip", "mdl_missing_var_zero"],
     "C03": ["do_div_offset", "do_lap_first_only", "do_jac_transposed", "do_rot_sign", "do_grad_sorted_vars"],
     "C11": ["law_circle_nosqrt", "law_par_bd_equal_sides", "law_union_equal_weights", "law_gauss_std", "law_lhs_spill", "law_grid_squeezed"],
